@@ -68,10 +68,10 @@ type Conn struct {
 	closed bool
 
 	finalStarted bool
-	rArmed bool
-	rDL    time.Time
-	wArmed bool
-	wDL    time.Time
+	rArmed       bool
+	rDL          time.Time
+	wArmed       bool
+	wDL          time.Time
 
 	Srv Server
 	// Seg decides how many bytes (1..avail) a Read may return; nil = as many as fit.
@@ -209,6 +209,14 @@ func (c *Conn) PushFront(items ...Item) {
 	} else {
 		c.queue = append(append([]Item(nil), items...), c.queue...)
 	}
+	c.mu.Unlock()
+	c.cond.Broadcast()
+}
+
+// UnblockWrites: the peer resumes reading; writes blocked by BlockWritesAfter complete.
+func (c *Conn) UnblockWrites() {
+	c.mu.Lock()
+	c.BlockWritesAfter = -1
 	c.mu.Unlock()
 	c.cond.Broadcast()
 }
@@ -439,7 +447,7 @@ func (c *Conn) Write(p []byte) (int, error) {
 		if n < 0 {
 			n = 0
 		}
-		for !c.closed && !(c.wArmed && !time.Now().Before(c.wDL.Add(writeSkew))) {
+		for !c.closed && c.BlockWritesAfter >= 0 && !(c.wArmed && !time.Now().Before(c.wDL.Add(writeSkew))) {
 			var t *time.Timer
 			if c.wArmed {
 				t = time.AfterFunc(time.Until(c.wDL)+writeSkew+time.Millisecond, func() { c.cond.Broadcast() })
@@ -449,9 +457,12 @@ func (c *Conn) Write(p []byte) (int, error) {
 				t.Stop()
 			}
 		}
-		if c.closed {
+		switch {
+		case c.closed:
 			err = &net.OpError{Op: "write", Net: "sim", Err: net.ErrClosed}
-		} else {
+		case c.BlockWritesAfter < 0:
+			n = len(p) // the peer reads again: the write completes
+		default:
 			err = &net.OpError{Op: "write", Net: "sim", Err: timeoutErr{}}
 		}
 	}
